@@ -43,6 +43,12 @@ func initTokens(mode string) {
 		base = specials
 	case "finite":
 		base = finite
+	case "wkb": // as "special" without the canonical NaN, which WKB reserves for the empty point
+		for _, u := range specials {
+			if u != 0x7FF8000000000000 {
+				base = append(base, u)
+			}
+		}
 	}
 	rot := 0
 	if mode != "int" {
@@ -62,6 +68,22 @@ func initTokens(mode string) {
 			f = float64(k)*1.25 + 1000.5 // ordinary, pairwise distinct, not in base
 		}
 		t := (k + rot) % NTOK
+		if mode == "wkb" {
+			// tokens 120..127 are fixed: 125/126 non-canonical NaNs, 127 the canonical NaN of an empty point
+			t = (k + rot) % 120
+			if k >= 120 {
+				t = k
+				f = float64(k) * 3.5
+				switch k {
+				case 125:
+					f = math.Float64frombits(0x7FF8000000000001)
+				case 126:
+					f = math.Float64frombits(0xFFF8000000000000)
+				case 127:
+					f = math.Float64frombits(0x7FF8000000000000)
+				}
+			}
+		}
 		palette[t] = f
 		bitsToTk[math.Float64bits(f)] = t
 	}
